@@ -66,6 +66,7 @@ type connState struct {
 	hist                []string
 	held                [][]byte
 	peeks               []peeked
+	nexts               []peeked // what Next returned during this callback ("must not be used in a new goroutine": usable in this one)
 	assembled, recycled int
 	seen                map[*byte]bool
 	closed              chan struct{}
@@ -100,6 +101,13 @@ func (c *connState) verify(after string) {
 			break
 		}
 	}
+	for i, p := range c.nexts {
+		if !bytes.Equal(p.got, p.want) {
+			c.failf("conn-next-changed", "after %s the bytes returned by %s earlier in this callback (%d bytes) are no longer what the peer sent (first difference at %d)", after, p.what, len(p.want), firstDiff(p.got, p.want))
+			c.nexts = append(c.nexts[:i], c.nexts[i+1:]...)
+			break
+		}
+	}
 	var rs []rng
 	for i, b := range c.held {
 		full := b[:cap(b)]
@@ -114,7 +122,7 @@ func (c *connState) verify(after string) {
 		r.what = fmt.Sprintf("application slice %d (cap %d)", i, cap(b))
 		rs = append(rs, r)
 	}
-	for _, p := range c.peeks {
+	for _, p := range append(append([]peeked(nil), c.peeks...), c.nexts...) {
 		if len(p.got) > 0 {
 			r := rangeOf(p.got[:len(p.got):len(p.got)])
 			r.what = "bytes returned by " + p.what
@@ -158,7 +166,7 @@ func (c *connState) OnTraffic(gc gnet.Conn) gnet.Action {
 		return gnet.Close
 	}
 	c.hist = append(c.hist, fmt.Sprintf("OnTraffic[%d buffered]", avail))
-	c.peeks = nil // a previous callback's peeks ended with it
+	c.peeks, c.nexts = nil, nil // a previous callback's slices ended with it
 	for k := 0; k < c.perCall; k++ {
 		o := c.ops[c.next%len(c.ops)]
 		c.next++
@@ -215,6 +223,8 @@ func (c *connState) OnTraffic(gc gnet.Conn) gnet.Action {
 			exp := c.stream[c.consumed : c.consumed+n]
 			if err != nil || !bytes.Equal(b, exp) {
 				c.failf("conn-next", "Next(%d) with %d available: err %v, %d bytes, first difference from the stream at %d", n, avail, err, len(b), firstDiff(b, exp))
+			} else {
+				c.nexts = append(c.nexts, peeked{b, exp, fmt.Sprintf("Next(%d)", n)})
 			}
 			c.consumed += n
 		case "read":
